@@ -405,6 +405,14 @@ class CompVal:
         self.frame = frame
         self.iterable = iterable
 
+    def __getattr__(self, name):
+        # an unevaluated comprehension used as a sequence (len, items, ...):
+        # outside the modelled subset -> the function is UNDECIDED
+        if name.startswith("__"):
+            raise AttributeError(name)
+        raise Unsupported("comprehension over a symbolic collection used as a value "
+                          f"({ast.unparse(self.node)[:80]})")
+
     def quantify(self, ip, universal):
         from .interp import Frame
         si = make_symiter(ip, self.iterable)
